@@ -5,7 +5,7 @@ import json, os, subprocess, sys
 WT = "/tmp/wt-mut"
 M = [
  ("C02-drop-query", "cache/cache_key.go", 'normHost, normPath, r.URL.RawQuery)', 'normHost, normPath, "")', "C02"),
- ("C02-lowercase-path", "cache/cache_key.go", 'normPath := path.Clean(r.URL.Path)', 'normPath := strings.ToLower(path.Clean(r.URL.Path))', "C02"),
+ ("C02-lowercase-path", "cache/cache_key.go", 'normPath := path.Clean(rawPath)', 'normPath := strings.ToLower(path.Clean(rawPath))', "C02"),
  ("C03-ignore-force", "proxy/headers/header_directives.go", 'if !forceDefaultCacheMaxAge {', 'if true {', "C03"),
  ("C03-expires-after", "cache/memory_cache.go", 'if entry.meta.Expires.Before(time.Now()) {\n\t\tstale = true\n\t}\n\n\tentry.meta.LastAccess = time.Now()\n\tmetrics.Global.Cache.CacheHits.Increment()\n\n\treturn &Entry', 'if entry.meta.Expires.Add(time.Second).Before(time.Now()) {\n\t\tstale = true\n\t}\n\n\tentry.meta.LastAccess = time.Now()\n\tmetrics.Global.Cache.CacheHits.Increment()\n\n\treturn &Entry', "C03"),
  ("C04-drop-status-check", "proxy/fetcher.go", 'resp.StatusCode == http.StatusOK &&\n\t\tresp.Request.Method == http.MethodGet', 'resp.Request.Method == http.MethodGet', "C04"),
@@ -72,5 +72,11 @@ for name, path, old, new, check in M:
     sys.stdout.flush()
     results[name] = {"check": check, "verdict": verdict, "signatures": sigs}
 subprocess.run(["git", "-C", WT, "checkout", "-q", "--", "."], check=True)
-subprocess.run("rm -f /verif/replays/C*", shell=True)
+if only:
+    try:
+        prev = json.load(open("/verif/tools/handmutants.last.json"))
+    except Exception:
+        prev = {}
+    prev.update(results)
+    results = prev
 json.dump(results, open("/verif/tools/handmutants.last.json", "w"), indent=1)
